@@ -93,12 +93,15 @@ def run(shard, rec):
             xs = mpc.input(xs, senders=0)
             if as_list:
                 ys = mpc.convert(xs, D)
+                if len(xs) >= 1:                      # the caller updates its own list right after the call: the values as passed are converted
+                    xs[0] = xs[0] + xs[0] + 1
+                    xs.reverse()
             else:
                 ys = [mpc.convert(x, D) for x in xs]
             ok_type = all(isinstance(y, D) for y in ys)
             out = await mpc.output(ys, raw=True)
             return [int(a) for a in out], ok_type
-        w = sim.World(m, t, no_prss, seed=sseed, policy=policy).run(program)
+        w = sim.World(m, t, no_prss, seed=sseed, policy=policy, history='auto').run(program)
         res = w.ok_results()
         what = f'{shard["name"]} convert {src} -> {dst} ({"list" if as_list else "scalars"})'
         wit = {'src': src, 'dst': dst, 'vals': [str(v) for v in vals], 'policy': policy, 'sched_seed': sseed}
